@@ -365,7 +365,7 @@ def _assignify(stmts, make_result, fallthrough_none: bool) -> Optional[List[ast.
                 return out
             return None
         out.append(st)
-    if fallthrough_none:
+    if fallthrough_none and not _terminates(out):
         out.extend(make_result(ast.Constant(value=None)))
     return out
 
@@ -1246,23 +1246,43 @@ def _range_len_to_enumerate(stmts):
 
 class _UnrollLiteralComprehensions(ast.NodeTransformer):
     """[f(x) for x in (a, b)]  ->  [f(a), f(b)]   (one generator over a tuple / list display, no condition, name target);
-    the same for a generator expression that is the only argument of .extend / .join / list / tuple (consumed completely, in order)"""
+    the same for a generator expression that is the only argument of .extend / .join / list / tuple (consumed completely, in order),
+    for a dict comprehension, and for an iterable that is a module-level constant bound once to a display of constants"""
 
-    def _unroll(self, comp):
+    def __init__(self, module_consts: Optional[Dict[str, ast.AST]] = None):
+        self.module_consts = module_consts or {}
+
+    def _items(self, comp):
         if len(comp.generators) != 1:
             return None
         g = comp.generators[0]
-        if g.ifs or g.is_async or not isinstance(g.target, ast.Name) or not isinstance(g.iter, (ast.Tuple, ast.List)) or len(g.iter.elts) > 12:
+        it = g.iter
+        if isinstance(it, ast.Name) and it.id in self.module_consts:
+            it = self.module_consts[it.id]
+        if g.ifs or g.is_async or not isinstance(g.target, ast.Name) or not isinstance(it, (ast.Tuple, ast.List)) or len(it.elts) > 12:
             return None
-        if any(isinstance(e, ast.Starred) for e in g.iter.elts):
+        if any(isinstance(e, ast.Starred) for e in it.elts):
             return None
-        var = g.target.id
-        if any(isinstance(n, (ast.Lambda, ast.ListComp, ast.GeneratorExp, ast.SetComp, ast.DictComp)) for n in ast.walk(comp.elt)):
+        parts = [comp.elt] if not isinstance(comp, ast.DictComp) else [comp.key, comp.value]
+        if any(isinstance(n, (ast.Lambda, ast.ListComp, ast.GeneratorExp, ast.SetComp, ast.DictComp)) for p_ in parts for n in ast.walk(p_)):
             return None
-        out = []
-        for item in g.iter.elts:
-            out.append(_Subst({var: item}).visit(copy.deepcopy(comp.elt)))
-        return ast.List(elts=out, ctx=ast.Load())
+        return g.target.id, it.elts
+
+    def _unroll(self, comp):
+        r = self._items(comp)
+        if r is None:
+            return None
+        var, items = r
+        return ast.List(elts=[_Subst({var: item}).visit(copy.deepcopy(comp.elt)) for item in items], ctx=ast.Load())
+
+    def visit_DictComp(self, node):
+        self.generic_visit(node)
+        r = self._items(node)
+        if r is None:
+            return node
+        var, items = r
+        return ast.copy_location(ast.Dict(keys=[_Subst({var: item}).visit(copy.deepcopy(node.key)) for item in items],
+                                          values=[_Subst({var: item}).visit(copy.deepcopy(node.value)) for item in items]), node)
 
     def visit_ListComp(self, node):
         self.generic_visit(node)
@@ -1542,6 +1562,86 @@ def _merge_search_result(stmts: List[ast.stmt]) -> List[ast.stmt]:
     return out
 
 
+class _SpliceDoubleStarDict(ast.NodeTransformer):
+    """f(**{'a': x, 'b': y})  ->  f(a=x, b=y)   (dict display with constant identifier keys)"""
+
+    def visit_Call(self, node):
+        self.generic_visit(node)
+        new_kw = []
+        for k in node.keywords:
+            if k.arg is None and isinstance(k.value, ast.Dict) and k.value.keys and all(isinstance(x, ast.Constant) and isinstance(x.value, str) and x.value.isidentifier() for x in k.value.keys):
+                new_kw.extend(ast.keyword(arg=x.value, value=v) for x, v in zip(k.value.keys, k.value.values))
+            else:
+                new_kw.append(k)
+        names = [k.arg for k in new_kw if k.arg is not None]
+        if len(names) == len(set(names)):
+            node.keywords = new_kw
+        return node
+
+
+def _fold_adjacent_displays(fn):
+    """t = <tuple / list / dict display or comprehension over constants> ; <next statement reading t exactly once, as *t, **t, an
+    argument, or the iterable of a comprehension>  ->  the use reads the display  (t bound once, read nowhere else; the next statement
+    evaluates no call before the place where t is read, other than the calls t is an argument of)"""
+    binds: Dict[str, int] = {}
+    uses: Dict[str, int] = {}
+    for n in _walk_own(fn):
+        if isinstance(n, ast.Name):
+            if isinstance(n.ctx, ast.Load):
+                uses[n.id] = uses.get(n.id, 0) + 1
+            else:
+                binds[n.id] = binds.get(n.id, 0) + 1
+    for n in ast.walk(fn):
+        if n is not fn and isinstance(n, FDEFS + (ast.Lambda,)):
+            for x in ast.walk(n):
+                if isinstance(x, ast.Name):
+                    uses[x.id] = uses.get(x.id, 0) + 2  # read inside a nested scope: never folded
+    params = {a.arg for a in ast.walk(fn.args) if isinstance(a, ast.arg)}
+
+    def scan(stmts):
+        out: List[ast.stmt] = []
+        i = 0
+        while i < len(stmts):
+            st = stmts[i]
+            for field in ("body", "orelse", "finalbody"):
+                sub = getattr(st, field, None)
+                if isinstance(sub, list) and sub and isinstance(sub[0], ast.stmt) and not isinstance(st, FDEFS + (ast.ClassDef,)):
+                    setattr(st, field, scan(sub))
+            if isinstance(st, ast.Try):
+                for hd in st.handlers:
+                    hd.body = scan(hd.body)
+            nxt = stmts[i + 1] if i + 1 < len(stmts) else None
+            tg = st.targets[0] if isinstance(st, ast.Assign) and len(st.targets) == 1 else st.target if isinstance(st, ast.AnnAssign) else None
+            val = getattr(st, "value", None)
+            if nxt is not None and isinstance(tg, ast.Name) and isinstance(val, (ast.Tuple, ast.List, ast.Dict, ast.DictComp, ast.ListComp)) and binds.get(tg.id) == 1 and uses.get(tg.id) == 1 \
+                    and tg.id not in params and isinstance(nxt, (ast.Assign, ast.AnnAssign, ast.Expr, ast.Return, ast.AugAssign)):
+                t = tg.id
+                where = nxt.value if not isinstance(nxt, ast.Expr) else nxt.value
+                site = [n for n in ast.walk(where) if isinstance(n, ast.Name) and n.id == t and isinstance(n.ctx, ast.Load)] if where is not None else []
+                if len(site) == 1:
+                    use = site[0]
+                    # calls of the next statement: only those that contain the use (it is one of their arguments / iterables)
+                    # (calls in the element of the comprehension that iterates over t run after t is read)
+                    after = {id(c) for n in ast.walk(where) if isinstance(n, (ast.ListComp, ast.GeneratorExp, ast.SetComp, ast.DictComp)) and any(x is use for x in ast.walk(n.generators[0].iter))
+                             for part in ([n.elt] if not isinstance(n, ast.DictComp) else [n.key, n.value]) for c in ast.walk(part)}
+                    others = [c for c in ast.walk(where) if isinstance(c, ast.Call) and not any(x is use for x in ast.walk(c)) and id(c) not in after]
+                    in_lambda = any(isinstance(n, ast.Lambda) and any(x is use for x in ast.walk(n)) for n in ast.walk(where))
+                    repeated = any(isinstance(n, (ast.ListComp, ast.GeneratorExp, ast.SetComp, ast.DictComp)) and any(x is use for x in ast.walk(n))
+                                   and not any(x is use for x in ast.walk(n.generators[0].iter)) for n in ast.walk(where))
+                    if not others and not in_lambda and not repeated:
+                        class R(ast.NodeTransformer):
+                            def visit_Name(self, n):
+                                return ast.copy_location(copy.deepcopy(val), n) if n is use else n
+                        stmts[i + 1] = R().visit(nxt)
+                        i += 1
+                        continue
+            out.append(st)
+            i += 1
+        return out
+
+    fn.body = scan(fn.body)
+
+
 def normalise_module(module_name: str, tree: ast.Module, multiply_defined: frozenset = frozenset()) -> ast.Module:
     mt: Dict[str, ast.Tuple] = {}
     counts: Dict[str, int] = {}
@@ -1585,7 +1685,17 @@ def normalise_module(module_name: str, tree: ast.Module, multiply_defined: froze
             _range_len_to_enumerate(n.body)
     tree = _GetattrLiteral().visit(tree)
     tree = _SpliceStarredTuples().visit(tree)
-    tree = _UnrollLiteralComprehensions().visit(tree)
+    for n in ast.walk(tree):
+        if isinstance(n, FDEFS):
+            _fold_adjacent_displays(n)
+    module_consts = {}
+    for st in tree.body:
+        if isinstance(st, ast.Assign) and len(st.targets) == 1 and isinstance(st.targets[0], ast.Name) and counts.get(st.targets[0].id) == 1 \
+                and isinstance(st.value, (ast.Tuple, ast.List)) and st.value.elts and all(isinstance(e, ast.Constant) for e in st.value.elts):
+            module_consts[st.targets[0].id] = st.value
+    tree = _UnrollLiteralComprehensions(module_consts).visit(tree)
+    tree = _GetattrLiteral().visit(tree)
+    tree = _SpliceDoubleStarDict().visit(tree)
     tree = _FormatToFString().visit(tree)
     tree = _EmptyJoinToConcat().visit(tree)
     for n in ast.walk(tree):
